@@ -24,6 +24,17 @@ def run(ctx):
     last_mono = max([i for i, c in enumerate(ids) if c != "0"] or [-1])
     if p.returncode != 0 or last_real < 0 or last_mono < last_real:
         viol.append({"sig": "c-abi-read-order", "detail": "clockbound_now() read the clocks as '%s' (a monotonic clock must be read after CLOCK_REALTIME (0))" % first, "replay": ""})
+    # Every path through now(): the C14/C05 vector sweeps (inside the blur, breaches, old records ...)
+    # with the interposer recording the order of the clock reads of each call.
+    rel = client.build_clientsim(ctx, True)
+    sw, sviol, _ss = client.sweep(ctx, rel, "C14", 2000000 if q else 40000000, 12)
+    sw2, sviol2, _ss2 = client.sweep(ctx, rel, "C05", 1000000 if q else 20000000, 13)
+    viol += [v for v in sviol + sviol2 if v["sig"] == "clock-read-order"]
+    ctx.log("read-order monitor over the vector sweeps: %d calls" % (sw["evaluations"] + sw2["evaluations"]))
+    # The real poller over a real socket: every report must stem from a request issued in its own poll.
+    from . import c13real
+    real = c13real.run_real(ctx)
+    viol += [v for v in real["violations"] if v["sig"] in ("report-not-from-this-poll", "real-poller-measurement")]
     inconclusive = incon
     if agg["shards_lost"]:
         inconclusive = "%d shards did not finish" % agg["shards_lost"]
@@ -38,6 +49,8 @@ def run(ctx):
                 "distinct_nontrivial = distinct history seeds",
         "samples": samples[:2] + [{"c_abi_clock_reads": first}],
         "as_of_checks": agg["msg_checks"],
+        "sweep_calls_with_order_monitor": sw["evaluations"] + sw2["evaluations"],
+        "real_poller_steps": real.get("steps"),
         "client_order_checks": agg["order_checks"],
         "delay_pairs": agg["gap_checks"],
         "min_margin_ns": agg["min_margin_ns"],
